@@ -1393,4 +1393,91 @@ theorem regLines_count_pos (k d P n : Nat) : (regLines k d (P + 1) (n + 1)).coun
   omega
 
 
+/-! ### deepening round D: index form of the sample-to-pixel assignment -/
+
+theorem sum_map_const_zero' {α} (l : List α) (f : α → Int) (h : ∀ a ∈ l, f a = 0) : (l.map f).sum = 0 := by
+  induction l with
+  | nil => rfl
+  | cons a l ih =>
+    simp only [List.map_cons, List.sum_cons]
+    rw [h a (by simp), ih (fun b hb => h b (by simp [hb]))]
+    rfl
+
+theorem assignedRaw_cons (x : Int) (xs : List Int) (c : Nat) (cs : List Nat) (j : Nat) :
+    assignedRaw (x :: xs) (c :: cs) j =
+      (if c ≠ 0 ∧ j = 0 then x else 0) +
+      (if c = 2 then (if j = 0 then 0 else assignedRaw xs cs (j - 1)) else assignedRaw xs cs j) := by
+  unfold assignedRaw
+  rw [List.length_cons, List.range_succ_eq_map, List.map_cons, List.sum_cons, List.map_map]
+  congr 1
+  · simp [pixelOfSample, eq_comm]
+  · by_cases h2 : c = 2
+    · subst h2
+      simp only [if_true]
+      by_cases hj : j = 0
+      · subst hj
+        simp only [if_true]
+        apply sum_map_const_zero' 
+        intro i _
+        simp [pixelOfSample]
+      · rw [if_neg hj]
+        congr 1
+        apply List.map_congr_left
+        intro i _
+        simp only [Function.comp, List.getD_cons_succ, pixelOfSample, List.take_succ_cons, List.count_cons,
+          beq_self_eq_true, if_true]
+        have : ((cs.take i).count 2 + 1 = j) ↔ ((cs.take i).count 2 = j - 1) := by omega
+        simp only [this]
+        rfl
+    · rw [if_neg h2]
+      congr 1
+      apply List.map_congr_left
+      intro i _
+      simp only [Function.comp, List.getD_cons_succ, pixelOfSample, List.take_succ_cons, List.count_cons]
+      have : (c == 2) = false := by simp [h2]
+      simp [this]
+
+theorem spec_getD_assigned (iw : List Nat) : ∀ (data : List Int) (acc : Int) (j : Nat), data.length = iw.length →
+    (pixelsSpecAux acc (data.zip iw)).getD j 0
+      = (if j = 0 ∧ 0 < iw.count 2 then acc else 0) + assignedSum data iw j := by
+  induction iw with
+  | nil =>
+    intro data acc j h
+    simp [pixelsSpecAux, assignedSum]
+  | cons c cs ih =>
+    intro data acc j h
+    cases data with
+    | nil => simp at h
+    | cons x xs =>
+      have h' : xs.length = cs.length := by simpa using h
+      unfold assignedSum
+      rw [assignedRaw_cons, List.zip_cons_cons, pixelsSpecAux, List.count_cons]
+      by_cases h0 : c = 0
+      · subst h0
+        simp only [if_true]
+        rw [ih xs acc j h']
+        unfold assignedSum
+        simp
+      · simp only [h0, if_false]
+        by_cases h2 : c = 2
+        · subst h2
+          simp only [if_true, beq_self_eq_true]
+          cases j with
+          | zero => simp
+          | succ j' =>
+            rw [List.getD_cons_succ, ih xs 0 j' h']
+            unfold assignedSum
+            simp
+        · simp only [h2, if_false]
+          rw [ih xs (acc + x) j h']
+          unfold assignedSum
+          have : (c == 2) = false := by simp [h2]
+          simp only [this, Bool.false_eq_true, if_false, Nat.add_zero]
+          by_cases hj : j = 0
+          · subst hj
+            by_cases hc : 0 < cs.count 2
+            · simp only [hc, and_self, if_true, h0, ne_eq, not_false_eq_true]; omega
+            · simp [hc]
+          · simp [hj]
+
 end Verif.C02
